@@ -103,6 +103,45 @@ def check(run):
         if k < 2:
             run.sample({'inputs': in_keys, 'outputs': out_keys, 'cells': len(wb.cells)})
 
+    # ---- (1b) template stream: a multi-cell range (or a name for it) among the inputs --------------------------------------
+    for k in range(40 if quick else 1500):
+        wb, R, name, outs = bookgen.range_template(rnd)
+        d = wb.to_dict(explicit_blanks=wb.explicit)
+        case = {'workbook': {k_: (str(v) if isinstance(v, bookgen.Err) else v) for k_, v in d.items()}, 'stream': 'range-template'}
+        how = rnd.choice((['range', 'sub-range', 'name'] if name else ['range', 'sub-range']) if wb.explicit else (['range', 'name'] if name else ['range']))
+        rr = R if how != 'sub-range' else (0, 2, 3, 1, 1)
+        key = wb.name_key(name) if how == 'name' else '%s!%s' % (wb.sheet_id(0), wb.ref_text(rr))
+        in_keys = [key] + ([wb.key(0, 1, 4)] if rnd.random() < 0.5 else [])
+        out_keys = [wb.key(*a) for a in outs]
+        case.update(inputs=in_keys, outputs=out_keys)
+        try:
+            m = bookrun.ExcelModel().from_dict(d)
+            m.calculate()
+            f = m.compile(inputs=in_keys, outputs=out_keys)
+        except Exception as ex:
+            run.violation('ExcelModel.compile raised %s: %s' % (type(ex).__name__, str(ex)[:100]), case)
+            continue
+        for t in range(2):
+            vals = [[rnd.choice([4, 6, 20, 30, 0, 8.5])] for _ in range(rr[2] - rr[1] + 1)]
+            iargs = [np.asarray(vals, object)] + ([rnd.choice([2, 9])] if len(in_keys) > 1 else [])
+            c2 = dict(case, args=[str(vals)] + [repr(x) for x in iargs[1:]])
+            run.count(1, (json.dumps(case['workbook'], sort_keys=True, default=str), tuple(in_keys), repr(c2['args'])), True, 'template/' + how)
+            try:
+                res = f(*iargs)
+                res = res if isinstance(res, (list, tuple)) else [res]
+                got = [wires(x) for x in res]
+                sol = bookrun.ExcelModel().from_dict(d).calculate(inputs=dict(zip(in_keys, iargs)), outputs=out_keys)
+                exp = [wires(sol[o]) for o in out_keys]
+            except Exception as ex:
+                run.violation('compiled function / calculate raised %s: %s' % (type(ex).__name__, str(ex)[:100]), c2)
+                continue
+            if got != exp:
+                j = [i for i in range(len(exp)) if got[i] != exp[i]][0]
+                run.violation('compiled function returns %s for %s, a full calculation with the same inputs gives %s' % (
+                    [[bookrun.show(v) for v in r] for r in got[j]], out_keys[j], [[bookrun.show(v) for v in r] for r in exp[j]]), c2)
+            ov = [(0, rr[1] + i, 1, vals[i][0]) for i in range(len(vals))] + ([(0, 1, 4, iargs[1])] if len(in_keys) > 1 else [])
+            req.append(wb.to_wire(outs, overrides=ov))
+            pend.append((wb, outs, [e[0][0] for e in exp], c2))
     # ---- (2) single formulas ------------------------------------------------------------------------------------------
     nf = 250 if quick else 6000
     refs_pool = ['A1', 'B2', 'C3', 'A1:A3', 'B1:B3', 'D4']     # broadcast-compatible shapes only
